@@ -467,3 +467,70 @@ def r_counthint(ctx, rep):
                 rep.holds("R-COUNTHINT", key, loc(em["match"]), "the loop ends only at the closing tag / end of input / error%s" % ("" if not cnt else " (count attribute read but not steering the loop)"), nontrivial=True)
     if n < 4:
         rep.anchor_missing("R-COUNTHINT", "element loops of the merge-cell / shared-string readers (found %d)" % n)
+
+
+# ----------------------------------------------------------------------------------------------
+# R-CHASE
+
+
+def r_chase(ctx, rep):
+    """Self-chasing loops are bounded: a `while` loop whose condition only compares a variable v with
+    constants, and whose body re-defines v from data selected by v itself (v = T[v], v = f(.., v, ..)),
+    needs another exit that depends on something monotone (a counter, a visited set, the output length
+    against a limit).  Otherwise a cyclic chain in the file makes the loop run forever while it grows
+    its output."""
+    F = ctx.facts("default")
+    n = 0
+    for fn in F.user_fns():
+        if fn.file not in ("src/cfb.rs", "src/vba.rs", "src/xls.rs", "src/xlsb/mod.rs", "src/xlsx/mod.rs", "src/ods.rs"):
+            continue
+        inits = {}
+        for x in walk(fn.body):
+            if x.get("k") == "Let" and x.get("init") is not None:
+                for nm, lid in pat_bindings(x["pat"]):
+                    inits[lid] = x["init"]
+        k = 0
+        for lp in walk_k(fn.body, "Loop"):
+            if lp.get("src") != "while":
+                continue
+            # desugared: loop { if cond { body } else { break } }
+            blk = lp["body"]
+            top = unwrap(blk.get("expr") or (blk["stmts"][0].get("e") if blk.get("stmts") else {}))
+            if not isinstance(top, dict) or top.get("k") != "If":
+                continue
+            cond, body = top["cond"], top["then"]
+            cvars = {p["res"]["lid"]: p["res"]["local"] for p in walk_k(cond, "Path") if "local" in p.get("res", {})}
+            if len(cvars) != 1:
+                continue
+            if any(m.get("k") in ("MethodCall", "Call") for m in walk(cond)):
+                continue   # conditions like `!rgce.is_empty()` / `i < s.len()` consult more than v
+            (vlid, vname), = cvars.items()
+            # assignments to v in the body that depend on v (directly, or through a container the body fills using v)
+            assigns = [a for a in walk_k(body, "Assign") if path_local(a["l"]) and path_local(a["l"])[1] == vlid]
+            if not assigns:
+                continue
+            fed_by_v = set()
+            for c in walk_k(body, "MethodCall", "Call"):
+                if any(p.get("res", {}).get("lid") == vlid for p in walk_k(c, "Path")):
+                    if c.get("k") == "MethodCall" and path_local(c["recv"]):
+                        fed_by_v.add(path_local(c["recv"])[1])
+            dep = False
+            for a in assigns:
+                used = {p["res"]["lid"] for p in walk_k(a["r"], "Path") if "local" in p.get("res", {})}
+                via_data = any(any(p.get("res", {}).get("lid") == vlid for p in walk_k(ix["idx"], "Path")) for ix in walk_k(a["r"], "Index")) or \
+                    any(any(p.get("res", {}).get("lid") == vlid for p in walk_k(c, "Path")) for c in walk_k(a["r"], "MethodCall", "Call") if not (callee(c) or "").startswith("core::num"))
+                if via_data or used & fed_by_v:
+                    dep = True
+            if not dep:
+                continue
+            n += 1
+            k += 1
+            key = "%s|R-CHASE|while#%d %s" % (fn.name, k, vname)
+            # any other exit: break / return (not `?`) inside the body, or the condition mentions a second variable
+            exits = [b for b in walk(body) if b.get("k") in ("Break", "Ret") and not b["span"].get("desugar")]
+            if exits:
+                rep.holds("R-CHASE", key, loc(lp), "the chain walk over `%s` has an additional exit at %s" % (vname, loc(exits[0])))
+            else:
+                rep.violation("R-CHASE", key, loc(lp), "%s: `while` loop over `%s` re-defines `%s` from data selected by `%s` itself and has no other exit: a cyclic chain in the file makes it run forever (and grow its output until memory is exhausted)" % (fn.name, vname, vname, vname))
+    if n < 2:
+        rep.anchor_missing("R-CHASE", "self-chasing while loops (the two CFB chain walks); found %d" % n)
